@@ -18,6 +18,7 @@ import (
 	"github.com/youchainhq/go-youchain/common"
 	"github.com/youchainhq/go-youchain/core/types"
 	"github.com/youchainhq/go-youchain/event"
+	"github.com/youchainhq/go-youchain/logging"
 	"github.com/youchainhq/go-youchain/you/downloader"
 	"github.com/youchainhq/go-youchain/youdb"
 )
@@ -34,8 +35,36 @@ var e2eKnobsOnce sync.Once
 // e2eKnobs shrinks the downloader's tunables (plain package vars, as geth's own downloader tests
 // do) once per process so that short chains exercise the skeleton fill, throttling, the per-call
 // result cap and request expiry. Constant for the whole process: running downloaders read them.
+// logRing keeps the downloader's last log messages (diagnostics for notes only, never an oracle).
+var logRing struct {
+	mu   sync.Mutex
+	msgs []string
+}
+
+func logTail(n int) []string {
+	logRing.mu.Lock()
+	defer logRing.mu.Unlock()
+	m := logRing.msgs
+	if len(m) > n {
+		m = m[len(m)-n:]
+	}
+	return append([]string(nil), m...)
+}
+
 func e2eKnobs() {
 	e2eKnobsOnce.Do(func() {
+		logging.Root().SetHandler(logging.FuncHandler(func(r *logging.Record) error {
+			if r.Lvl > logging.LvlDebug {
+				return nil
+			}
+			logRing.mu.Lock()
+			logRing.msgs = append(logRing.msgs, fmt.Sprintf("%s %v", r.Msg, r.Ctx))
+			if len(logRing.msgs) > 400 {
+				logRing.msgs = append([]string(nil), logRing.msgs[200:]...)
+			}
+			logRing.mu.Unlock()
+			return nil
+		}))
 		downloader.MaxHeaderFetch = 24
 		downloader.MaxSkeletonSize = 6
 		downloader.MaxBlockFetch = 16
@@ -673,7 +702,7 @@ func runE2ECase(c *kit.Ctx, id string) {
 		}
 		outcomes = append(outcomes, "honest:"+kind)
 		if kind != "ok" {
-			c.Note(fmt.Sprintf("%s: honest sync attempt %d ended with %q (spec %+v, outcomes %v)", id, attempts, kind, sp, outcomes))
+			c.Note(fmt.Sprintf("%s: honest sync attempt %d ended with %q (spec %+v, outcomes %v); downloader log tail: %q", id, attempts, kind, sp, outcomes, logTail(30)))
 		}
 		c.Count("e2e_honest_sync_"+kind, 1)
 		if kind == "timeout" || kind == "stalling-peer" {
